@@ -126,6 +126,38 @@ CHECKS = {
              "assignments. Known finding: pickle round trip keeps the serial number.",
         technique="TLA+ retain-state/copy/read-only spec + TLC; edge replay on real objects; TLC trace validation of random assignment storms",
     ),
+    "C20": dict(
+        text="XsGroupsLabels.tla enumerates all 52 + 2704 admissible labels (number = decimal concatenation of character codes, Back its inverse: NoCollision, RoundTrip); "
+             "XsGroupsAvg/XsGroupsRep.tla define candidates, weights, refusal rule and the weight-normalised means / HM-weighted burnup / median member over exact "
+             "rationals with the min-max, common-value, duplication and rescaling laws as invariants; XsGroups.tla models the CrossSectionGroupManager as a state "
+             "machine (burn, heat, flux, enable/disable, makeGroups, createRepresentativeBlocks incl. refusal) with Partition, KeyDetermines, EnvironmentRule, "
+             "BlocksUntouched. Every TLC case/edge is executed on real blocks and a real manager; random manager histories are validated by TLC.",
+        design="3/C20 and 9",
+        note="Trusted: TLC, generated two-component Custom-material HexBlocks, atomic weights patched to small integers for by-component temperatures. Cylinder/slab "
+             "collections, lumped fission products and pre-generated cross sections are not covered. Temperature bounds are never hit exactly.",
+        technique="TLA+ label/averaging/manager specs (exact rationals) + TLC; every TLC case on real BlockCollections and a real CrossSectionGroupManager; TLC trace validation",
+    ),
+    "C12": dict(
+        text="AxialExpansion.tla transcribes the axial expansion changer over exact rationals: link detection, target-component selection, prescribed and thermal factor "
+             "computation, axiallyExpandAssembly bottom-up, refusals; total height, contiguity, grid bounds, boundary-follows-target, linked-stay-stacked, round trip and "
+             "the mass clauses are invariants checked exhaustively by TLC over a catalogue of assembly designs; every emitted behaviour is replayed on real assemblies "
+             "built with armi's fake HT9 materials and recorded call histories are validated by TLC.",
+        design="3/C12 and 9",
+        note="Trusted: TLC, the assembly generator, link geometry from cold integer diameters. Two literal mass-conservation clauses of the statement are refuted by the "
+             "code (known findings); the spec checks in their place what the code guarantees (MassAccounting, AlignedTargetMassConserved, UniformAssemblyMassConserved).",
+        technique="TLA+ exact-rational transcription of the axial expansion changer + TLC; behaviours replayed on real assemblies; TLC trace validation",
+    ),
+    "C17": dict(
+        text="SettingSchema.tla models the voluptuous subset armi uses, Setting._setSchema/setValue/dump and the named validators; TLC evaluates it over a catalog exported "
+             "from the 154 live settings (+4 plugin-contributed) and prints, per setting and candidate value, verdict / stored value / dump / round-trip law. "
+             "SettingsCase.tla is the state machine (assign, refusals, write in three styles, hand-edited files, read as overlay, old names, modified copies, "
+             "duplicate/deepcopy/pickle) with 17 invariants. Every catalog case is assigned on a real Settings object, every edge of the plan graphs is executed through "
+             "the stream and file APIs with whole classes of real settings, and random histories are validated by TLC.",
+        design="3/C17 and 9",
+        note="Trusted: TLC, the catalog export of live Setting declarations (a changed schema is judged only through the data laws), ~95 candidate values per setting. "
+             "Non-enforced option lists are hints, as in the code.",
+        technique="TLA+ schema + settings-case specs evaluated by TLC over the live settings catalog; per-case assignment and edge replay on real Settings; TLC trace validation",
+    ),
 }
 
 NOT_YET = "no specification-bound check has been built for this property yet in this session (planned, see DESIGN.md section 3)"
